@@ -19,7 +19,6 @@ use std::io::{self, Read, Write};
 
 extern crate alloc;
 use alloc::format;
-use alloc::vec;
 use alloc::vec::Vec;
 
 /// Magic bytes identifying an ELOG file: "ELOG".
